@@ -94,10 +94,10 @@ PROPS['C12'] = {
     'trusted_base': [
         'reward parameters are integers in the model; the harness uses integer-valued float parameters so that parts compare exactly, and compares composites with Python sum()',
         'math.sqrt is strictly monotone on the integers involved (Euclidean distance compared through its square)',
-        'breadth-first shortest path of the model vs the cached dijkstra of the code: correspondence only (no bfs_correct theorem yet)',
+        'breadth-first shortest path of the model (proved equal to the graph distance, Lemmas/Bfs.lean) vs the cached dijkstra of the code: correspondence',
     ],
     'assumptions': ['next-state agent inside a rectangular grid; distance rewards need exactly one object of the type (mitt.one), reach_exit_memory needs a beacon'],
-    'partial': 'getting_closer_shortest_path: the theorem reduces it to the model BFS; BFS = graph distance is not proved (correspondence + independent BFS oracle only). Wiring of (s, a, s\') inside functional_step is proved in C01/C04.',
+    'partial': 'Wiring of (s, a, s\') inside functional_step is proved in C01/C04.',
 }
 
 OBSM = 'harness.corr_obs'
@@ -191,8 +191,8 @@ PROPS['C16'] = {
 
 RESETM = 'harness.corr_reset'
 PROPS['C13'] = {
-    'targets': ['GridVerse.Props.C13', 'GridVerse.Props.C14Rooms', 'GridVerse.Props.C14Crossing'],
-    'theorem_files': [('GridVerse/Props/C13.lean', 'C13_'), ('GridVerse/Props/C14Rooms.lean', 'C13_'), ('GridVerse/Props/C14Crossing.lean', 'C13_')] + AG('Objects'),
+    'targets': ['GridVerse.Props.C13', 'GridVerse.Props.C14Rooms', 'GridVerse.Props.C14Crossing', 'GridVerse.Props.C13MemoryRooms'],
+    'theorem_files': [('GridVerse/Props/C13.lean', 'C13_'), ('GridVerse/Props/C14Rooms.lean', 'C13_'), ('GridVerse/Props/C14Crossing.lean', 'C13_'), ('GridVerse/Props/C13MemoryRooms.lean', 'C13_')] + AG('Objects'),
     'audit_prefix': 'C13_',
     'families': {
         'quick': [(RESETM, 'fam_reset_random', 16000, 16), (RESETM, 'fam_reset_grid', 0, 16), (RESETM, 'fam_splits', 0, 16)],
@@ -204,7 +204,7 @@ PROPS['C13'] = {
         'numpy Generator.integers/choice/shuffle semantics as recorded by the proxy (request sequence and answers compared on every reset)',
     ],
     'assumptions': ['colour sets are passed sorted by value (the code sorts them since the F6 repair)'],
-    'partial': 'Lean theorems (structural description for every stream, and rejection with ValueError) for empty, dynamic_obstacles, teleport, keydoor, memory, rooms (>= 4 rows; numpy split vectors are inputs satisfying the code\'s own checks) and crossing (wall rivers). memory_rooms (same room grid as rooms, plus beacons/exits) is modelled and tied by draw-log correspondence on shapes up to 13x13; its well-formedness is decided by the oracle on the implementation, not yet by a theorem.',
+    'partial': 'Lean theorems (structural description for every stream, and rejection with ValueError) for all eight reset functions: empty, dynamic_obstacles, teleport, keydoor, memory, rooms (>= 4 rows), memory_rooms and crossing (wall rivers). For rooms / memory_rooms the numpy split vectors are inputs satisfying the code\'s own checks; for memory_rooms the number of floor cells of the room grid appears in the validity condition as the length of the model\'s own floor list (no closed form).',
 }
 
 PROPS['C01'] = {
